@@ -322,7 +322,7 @@ def handle (ctx : Ctx) (toks : List String) : String × String × String :=
     let y : Dec := ⟨b, q⟩
     let pc := partialCmp x y
     let bits (o : Option Ordering) : String :=
-      b2s (decEq x y) ++ b2s (!decEq x y) ++ b2s (o == some .lt) ++ b2s (o == some .lt || o == some .eq) ++
+      b2s (decimalEq x y) ++ b2s (!decimalEq x y) ++ b2s (o == some .lt) ++ b2s (o == some .lt || o == some .eq) ++
         b2s (o == some .gt) ++ b2s (o == some .gt || o == some .eq)
     let c := cmp x y
     let (mn, mx) := match c with
@@ -457,6 +457,78 @@ def handle (ctx : Ctx) (toks : List String) : String × String × String :=
     ((match asIntegerRatio ctx.prof d with | .ok (x, y) => s!"{x} {y}" | .panic k => s!"panic:{k.toString} -") ++
         " " ++ sh (numerator ctx.prof d) ++ " " ++ sh (denominator ctx.prof d),
       s!"{n} {dn} {n} {dn}", s!"{sgn a}{if p = 0 then "0" else "p"}{if Int.gcd a (10 ^ p) = 1 then "c" else "r"}")
+  | ["hash", a, p] =>
+    let (a, p) := (parseInt a, parseNat p)
+    let d : Dec := ⟨a, p⟩
+    let r0 := asIntegerRatio ctx.prof d
+    -- every representation of the same value with more fractional digits feeds the same pair
+    let rec go (fuel : Nat) (c : Int) (k : Nat) (acc : Bool) : Bool :=
+      match fuel with
+      | 0 => acc
+      | fuel + 1 =>
+        if k > 18 then acc else
+        match checkedI128 (c * 10) with
+        | some c2 =>
+          if c2 = I128_MIN then acc else
+          let e : Dec := ⟨c2, k⟩
+          go fuel c2 (k + 1) (acc && decimalEq e d && (asIntegerRatio ctx.prof e == r0))
+        | none => acc
+    let ok := r0.isOk && go 19 a (p + 1) true
+    (b2s ok, "1", s!"{sgn a}{if p = 0 then "0" else "p"}")
+  | ["hasheq", a, p, b, q] =>
+    let (a, p, b, q) := (parseInt a, parseNat p, parseInt b, parseNat q)
+    let x : Dec := ⟨a, p⟩
+    let y : Dec := ⟨b, q⟩
+    let e := Spec.cmp a p b q == .eq
+    (b2s (decimalEq x y) ++ " " ++ b2s (asIntegerRatio ctx.prof x == asIntegerRatio ctx.prof y),
+      b2s e ++ " " ++ (if e then "1" else "*"), b2s e)
+  | ["serde", a, p] =>
+    let (a, p) := (parseInt a, parseNat p)
+    let d : Dec := ⟨a, p⟩
+    let r := Spec.render a p
+    (match toStringDec ctx.prof d with
+      | .ok l => tohex ([34] ++ l ++ [34]) ++ " " ++ (showExceptParse (fromStr ctx.prof l)).replace " " ","
+      | .panic k => showPanic k,
+      tohex ([34] ++ r ++ [34]) ++ s!" ok,{a},{p}", "")
+  | ["rkyv", a, p, b, q] =>
+    let (a, p, b, q) := (parseInt a, parseNat p, parseInt b, parseNat q)
+    let x : Dec := ⟨a, p⟩
+    let y : Dec := ⟨b, q⟩
+    let e := decimalEq x y
+    let c := showOptOrd (partialCmp x y)
+    let so := Spec.cmp a p b q
+    (s!"ok,{a},{p} {b2s e}{b2s e}{b2s e} {c} {c} {c}",
+      s!"ok,{a},{p} {b2s (so == .eq)}{b2s (so == .eq)}{b2s (so == .eq)} {showOrd so} {showOrd so} {showOrd so}", "")
+  | "nt" :: name :: args =>
+    let d2 (l : List String) : Dec := match l with | a :: p :: _ => ⟨parseInt a, parseNat p⟩ | _ => Dec.ZERO
+    match name with
+    | "iszero" => let d := d2 args; (b2s (eqZero d), b2s (d.coeff = 0), "")
+    | "isone" => let d := d2 args
+      (match eqOne d with | .ok v => b2s v | .panic k => showPanic k, b2s (d.coeff = 10 ^ d.nfrac), "")
+    | "zero" => (showDec Dec.ZERO, "ok 0 0", "")
+    | "one" => (showDec Dec.ONE, "ok 1 0", "")
+    | "abs" => let d := d2 args; (showOutDec (abs ctx.prof d), s!"ok {d.coeff.natAbs} {d.nfrac}", "")
+    | "signum" => let d := d2 args; (showDec (fromInt (Int.sign d.coeff)), s!"ok {Int.sign d.coeff} 0", "")
+    | "ispos" => let d := d2 args; (b2s (isPositive d), b2s (d.coeff > 0), "")
+    | "isneg" => let d := d2 args; (b2s (isNegative d), b2s (d.coeff < 0), "")
+    | "abssub" =>
+      match args with
+      | [a, p, b, q] =>
+        let x : Dec := ⟨parseInt a, parseNat p⟩
+        let y : Dec := ⟨parseInt b, parseNat q⟩
+        let le := match partialCmp x y with | some .lt => true | some .eq => true | _ => false
+        let so := Spec.cmp x.coeff x.nfrac y.coeff y.nfrac
+        (if le then showDec Dec.ZERO else showOutDec (addSub true x y),
+          if so != .gt then "ok 0 0" else expOp (Spec.addSub true x.coeff x.nfrac y.coeff y.nfrac), "")
+      | _ => ("bad-op", "-", "")
+    | "radix" =>
+      match args with
+      | [r, h] =>
+        let s := unhex h
+        if parseNat r ≠ 10 then ("err Invalid", "err Invalid", "")
+        else (showExceptParse (fromStr ctx.prof s), specParse s, "")
+      | _ => ("bad-op", "-", "")
+    | _ => ("bad-op", "-", "")
   | _ => ("bad-op", "-", "")
 
 def profileOf (s : String) : Profile :=
